@@ -31,11 +31,11 @@ CLAIMED = {
     "C04": dict(
         text="Fixed method key entry point from MIR with key code (2^16), modifier byte (2^8) and number-pad option symbolic and the layout file an "
              "oracle: z3 decides on every path that exactly the entry named by the key-name table is consulted and exactly its text composed; "
-             "Kani cross-checks modifier decoding. Every path witness is replayed natively.",
+             "Kani cross-checks modifier decoding. Every path witness is replayed natively. The same is decided on the layout object the crate's own Layout::parse builds from MIR (one shape per layout key, its two planes absent / empty / any text).",
         technique="symbolic execution of rustc MIR with z3 over the full key space + Kani/CBMC kernel"),
     "C05": dict(
         text="Memo transparency step: suggest() executed twice from MIR on the same object with shared data oracles (first with the memo holding the "
-             "proper prefixes only and arbitrary scratch buffers, then warm): z3 decides equal lists and preselection.",
+             "proper prefixes only and arbitrary scratch buffers, then warm): z3 decides equal lists and preselection. Every key / backspace of the method returns the assembly's answer for the text as it stands (list and preselection), nothing remembered from an earlier event.",
         technique="symbolic execution of rustc MIR with z3 (paired runs, data oracles)"),
     "C06": dict(
         text="One inductive step per event of the fixed method (and of the phonetic method under the assembly contract) from an arbitrary pre-state "
@@ -45,7 +45,7 @@ CLAIMED = {
     "C07": dict(
         text="Kani runs the real slice::sort over symbolic Rank values of the producible domain and decides the ordering clauses and stability; the MIR "
              "executor runs the whole phonetic assembly with auto-correct, dictionary, emoji and selection oracles and symbolic distances and z3 decides "
-             "the ranking clauses, English-last and no-duplicates on every path; executor and native build agree on concrete typed texts.",
+             "the ranking clauses, English-last and no-duplicates on every path; executor and native build agree on concrete typed texts. Every dictionary-derived candidate carries the distance of its dictionary word / of its base.",
         technique="Kani/CBMC SAT (real std sort) + symbolic execution of rustc MIR with z3 (data oracles)"),
     "C08": dict(
         text="Suffix half: add_suffix_to_suggestions/suggest from MIR for a symbolic word with every split point, suffix and memo oracles: z3 decides that "
@@ -53,19 +53,19 @@ CLAIMED = {
         technique="symbolic execution of rustc MIR with z3 against reference joining rules"),
     "C09": dict(
         text="Learn round trip from MIR: suggest -> candidate_committed(any index other than the preselected one) -> suggest again, with data oracles and "
-             "concrete punctuation wrappers converted by the real okkhor: z3 decides that the committed text is preselected.",
+             "concrete punctuation wrappers converted by the real okkhor: z3 decides that the committed text is preselected. The constructor reads the store under every option setting.",
         technique="symbolic execution of rustc MIR with z3 (multi-step, data oracles)"),
     "C10": dict(
         text="PhoneticMethod::new, update_engine and candidate_committed from MIR with every file-system and serde_json call a nondeterministic oracle "
-             "that may fail: z3/path enumeration decides no panic path and the state clauses (unreadable = absent, failed save loses one choice).",
+             "that may fail: z3/path enumeration decides no panic path and the state clauses (unreadable = absent, failed save loses one choice). The candidate assembly is run with empty stored strings as a damaged file can hold them (loaded at start-up or by a re-load).",
         technique="symbolic execution of rustc MIR with fault oracles (bounded model checking of all environment behaviours)"),
     "C11": dict(
         text="Reload step from MIR: type a word, update_engine under a later modification time with a different user auto-correct list (entry present/"
-             "absent before and after), type again, and compare with a context created after the edit: z3 decides equal candidate lists.",
+             "absent before and after), type again, and compare with a context created after the edit: z3 decides equal candidate lists. Data::new from MIR gives the same tables for every layout / option setting over one data directory; suggest() on one object under two configurations in a row equals a pristine object under the second; RitiContext from MIR through its own constructor over update histories.",
         technique="symbolic execution of rustc MIR with z3 (paired runs)"),
     "C12": dict(
         text="One key from any composed text (all Unicode scalar values symbolic) with any key value under all 16 helper settings: z3 decides equality "
-             "with an ordered rule list written from the property text; where the text is silent the outcome must still be a rule outcome.",
+             "with an ordered rule list written from the property text; where the text is silent the outcome must still be a rule outcome. A plain backspace removes exactly the last code point from any text of any scalar values.",
         technique="symbolic execution of rustc MIR with z3 against a reference rule table"),
     "C13": dict(
         text="Reph key from any composed text (all scalar values symbolic): z3 decides conservation for every text within the length bound and placement "
@@ -73,7 +73,7 @@ CLAIMED = {
         technique="symbolic execution of rustc MIR with z3 against a syllable-grammar reference"),
     "C14": dict(
         text="Paired key histories from idle (typewriter order with the option on vs Unicode order with it off) over complete syllable templates with "
-             "class-constrained symbolic letters and all 16 settings of the other helpers: z3 decides equal final texts and the pending-sign clauses.",
+             "class-constrained symbolic letters and all 16 settings of the other helpers: z3 decides equal final texts and the pending-sign clauses. The suggestion switch is symbolic: every key shows the text composed so far.",
         technique="symbolic execution of rustc MIR with z3 (paired histories)"),
     "C15": dict(
         text="Fixed candidate assembly from MIR with the regex search, emoji tables as oracles: z3 decides first candidate = composed text (curled), cap of "
@@ -82,20 +82,20 @@ CLAIMED = {
         technique="symbolic execution of rustc MIR with z3 (data oracles) + Kani/CBMC (real sort_unstable)"),
     "C16": dict(
         text="Kani decides the English-masked-by-ANSI switch and the read-out law pre-edit = encode(candidate) iff ANSI (encoder = tagging stub); the MIR "
-             "executor decides for both assemblies that with ANSI on no emoji, emoticon text or raw English reaches the list for any English setting.",
+             "executor decides for both assemblies that with ANSI on no emoji, emoticon text or raw English reaches the list for any English setting. The ANSI clause is also decided for the list shown after an option change on a warm object.",
         technique="Kani/CBMC SAT + symbolic execution of rustc MIR with z3"),
     "C17": dict(
         text="Quoter kernel for all strings within the bound, and paired assembly runs (smart quotes on vs off, same oracles) for both methods: z3 decides "
-             "same length, order, preselection and candidate-wise equality after un-curling (raw typed text identical).",
+             "same length, order, preselection and candidate-wise equality after un-curling (raw typed text identical). Learn round trip of quoted words with the switch symbolic.",
         technique="symbolic execution of rustc MIR with z3 (paired runs)"),
     "C18": dict(
         text="Assembly from MIR with emoticon / emoji-name oracles: z3 decides that the emoji of an emoticon is offered and the literal text kept once, "
-             "all emoji of a name are offered wrapped and in table order, in both methods; ANSI excludes them.",
+             "all emoji of a name are offered wrapped and in table order, in both methods; ANSI excludes them. The same after an option change on a warm object.",
         technique="symbolic execution of rustc MIR with z3 (data oracles)"),
     "C19": dict(
         text="Kani with CBMC pointer checks decides the ownership protocol of suggestion, string and config objects through the exported functions "
-             "(strings stay valid after the suggestion is freed, bytes + NUL equal the Rust value, null frees are no-ops).",
-        technique="Kani/CBMC SAT with pointer checks over the compiled crate"),
+             "(strings stay valid after the suggestion is freed, bytes + NUL equal the Rust value, null frees are no-ops). The MIR executor runs the context functions of the C interface with the method objects as recording oracles and decides that a context uses its own copy of the caller's Config.",
+        technique="Kani/CBMC SAT with pointer checks over the compiled crate + symbolic execution of rustc MIR with z3 (context functions)"),
 }
 
 NOT_YET = {}
